@@ -3,6 +3,7 @@ package main
 import (
 	"fmt"
 	"go/ast"
+	"go/token"
 	"go/types"
 	"sort"
 	"strings"
@@ -29,6 +30,105 @@ func countLoops(fd *ast.FuncDecl) int {
 //	callers pkg.Func: f1, f2    only the listed functions (pkgshort.Key) may call Func
 //
 // over the whole loaded module. Each declaration yields one obligation.
+// immutable: the field components declared `frame T.f: none` (never assigned after construction).
+func (w *World) immutable() []string {
+	if w.immutableKeys != nil {
+		return w.immutableKeys
+	}
+	w.immutableKeys = []string{}
+	for _, fd := range w.Frames {
+		if fd.IsCall || fd.IsArg {
+			continue
+		}
+		if len(fd.Funcs) == 0 || (len(fd.Funcs) == 1 && strings.HasSuffix(fd.Funcs[0], "none")) {
+			if fd.IsElems {
+				if T := w.elemsType(fd); T != nil {
+					w.immutableKeys = append(w.immutableKeys, elemCompPrefix(T))
+				}
+				continue
+			}
+			w.immutableKeys = append(w.immutableKeys, fd.Pkg+"."+fd.Comp)
+		}
+	}
+	return w.immutableKeys
+}
+
+// elemsType resolves the element type named by a frameelems declaration.
+func (w *World) elemsType(fd *FrameDecl) types.Type {
+	pi := w.Pkgs[fd.Pkg]
+	if pi == nil {
+		return nil
+	}
+	o := pi.P.Types.Scope().Lookup(strings.TrimPrefix(fd.Comp, "*"))
+	if o == nil {
+		return nil
+	}
+	T := o.Type()
+	if strings.HasPrefix(fd.Comp, "*") {
+		T = types.NewPointer(T)
+	}
+	return T
+}
+
+// elemWriters: functions of the module that assign an element of a slice of the declared element type in place.
+func (w *World) elemWriters(fd *FrameDecl) []string {
+	T := w.elemsType(fd)
+	if T == nil {
+		return []string{"!type " + fd.Comp + " no longer exists"}
+	}
+	var offenders []string
+	for _, p := range w.Pkgs {
+		info := p.P.TypesInfo
+		isElem := func(e ast.Expr) bool {
+			ix, ok := ast.Unparen(e).(*ast.IndexExpr)
+			if !ok {
+				return false
+			}
+			st, ok := under(info.TypeOf(ix.X)).(*types.Slice)
+			return ok && types.Identical(st.Elem(), T)
+		}
+		for _, file := range p.P.Syntax {
+			for _, d := range file.Decls {
+				fn, ok := d.(*ast.FuncDecl)
+				if !ok || fn.Body == nil {
+					continue
+				}
+				hit := false
+				ast.Inspect(fn.Body, func(n ast.Node) bool {
+					switch x := n.(type) {
+					case *ast.AssignStmt:
+						for _, l := range x.Lhs {
+							if isElem(l) {
+								hit = true
+							}
+						}
+					case *ast.IncDecStmt:
+						if isElem(x.X) {
+							hit = true
+						}
+					case *ast.CallExpr:
+						if id, ok := x.Fun.(*ast.Ident); ok && id.Name == "copy" && len(x.Args) == 2 {
+							if st, ok := under(info.TypeOf(x.Args[0])).(*types.Slice); ok && types.Identical(st.Elem(), T) {
+								hit = true
+							}
+						}
+					case *ast.UnaryExpr:
+						if x.Op == token.AND && isElem(x.X) {
+							hit = true
+						}
+					}
+					return true
+				})
+				if hit {
+					offenders = append(offenders, shortPkg(p.Path)+"."+funcKey(fn)+" ("+w.pos(fn.Pos())+")")
+				}
+			}
+		}
+	}
+	sort.Strings(offenders)
+	return offenders
+}
+
 func (w *World) checkFrames(prop string) []*Obligation {
 	var out []*Obligation
 	for _, fd := range w.Frames {
@@ -42,6 +142,9 @@ func (w *World) checkFrames(prop string) []*Obligation {
 		if fd.IsArg {
 			kind = "argpolicy"
 		}
+		if fd.IsElems {
+			kind = "frameelems"
+		}
 		fam := shortPkg(fd.Pkg) + "." + fd.Comp + "#" + kind
 		o := &Obligation{ID: fam + "@1", Family: fam, Kind: kind, Func: shortPkg(fd.Pkg) + "." + fd.Comp, Goal: "true", Backend: "syntactic",
 			Text: fmt.Sprintf("%s %s: %s", kind, fd.Comp, strings.Join(fd.Funcs, ", "))}
@@ -52,6 +155,8 @@ func (w *World) checkFrames(prop string) []*Obligation {
 		var offenders []string
 		if fd.IsArg {
 			offenders = w.argOffenders(fd, allowed)
+		} else if fd.IsElems {
+			offenders = w.elemWriters(fd)
 		} else if fd.IsCall {
 			offenders = w.callersOutside(fd, allowed)
 		} else {
@@ -423,8 +528,15 @@ func (w *World) checkRecursion(prop string) []*Obligation {
 				bounded = true
 			}
 		}
-		if len(comp) == 1 && nodes[comp[0]].c.RecDec != nil {
-			// direct recursion with a declared measure: the `variant.recursion` obligations at the self-calls decide it
+		allMeasured := true
+		for _, k := range comp {
+			if nodes[k].c.RecDec == nil {
+				allMeasured = false
+			}
+		}
+		if allMeasured {
+			// every function of the cycle declares a measure (and a rank): the `variant.recursion` obligations at the
+			// calls between them decide it
 			continue
 		}
 		fam := names[0] + "#recursion"
